@@ -85,7 +85,8 @@ def cases(seed, tier, shard, nshards):
         end = '\\end{%s}' % env
         if end in body or ('\\end{verbatim}' in body):
             body = body.replace('\\end{verbatim', '\\end{verbati')
-        yield {'kind': 'verbatim', 'env': env, 'body': body, 'has_endcmd': ('\\end' + env) in body}
+        form = 'command' if (r.random() < 0.15 and not star and '\\endverbatim' not in body and body[:1] in ('\n', ' ')) else 'environment'
+        yield {'kind': 'verbatim', 'env': env, 'body': body, 'has_endcmd': ('\\end' + env) in body, 'form': form}
     delims = [c for c in PRINTABLE if not c.isalpha() and c not in '* ']
     for i in common.sharded(b['n_verb'], shard, nshards):
         r = common.rng_for(seed, PROP, i, 'v')
@@ -139,7 +140,12 @@ def special(s):
 
 def run_verbatim(case, st):
     env, body = case['env'], case['body']
-    src = "\\documentclass{article}\\begin{document}Wq1x\n\n\\begin{%s}%s\\end{%s}\n``Wq2x'' Wq3x\n\\end{document}" % (env, body, env)
+    if case.get('form') == 'command':
+        # the command form used inside environment definitions: \verbatim ... \endverbatim
+        src = "\\documentclass{article}\\begin{document}Wq1x\n\n\\begingroup\\verbatim%s\\endverbatim\\endgroup\n``Wq2x'' Wq3x\n\\end{document}" % body
+        st.feature('verbatim-form', 'command')
+    else:
+        src = "\\documentclass{article}\\begin{document}Wq1x\n\n\\begin{%s}%s\\end{%s}\n``Wq2x'' Wq3x\n\\end{document}" % (env, body, env)
     st.counters['verbatim_bodies'] += 1
     try:
         doc = parse(src)
